@@ -105,6 +105,41 @@ META = {
               'Recovery of a consistent order, identity on consistent masks and plan coverage are NOT decided (no sound static argument in reach).',
         note='The behavioural clauses of C16 quantify over all masks / all plan configurations; see DESIGN.md section 6.',
         design='DESIGN.md section 3 (C16)'),
+    'C05': dict(
+        technique='static analysis: named-axis shape domain (abstract interpretation) + class-axis parametricity rules',
+        level='With abstract shapes for every array in the 7 mixture models / trainers and mixture_model_utils: no integer literal on a class axis (shape templates excepted), no loop or '
+              'branch over class indices, only symmetric reductions over the class axis, per-class work broadcast over an explicitly inserted class axis (14 sites). '
+              'Rounding-level equality of relabelled runs is NOT decided; arg-max ties in the inline-PA search are a recorded order dependence.',
+        note='Trusted: documented class axis labels (K / k / num_classes) in docstrings, shape unpackings and einsum subscripts; unresolved shapes are counted, never flagged.',
+        design='DESIGN.md section 3 (C05)'),
+    'C06': dict(
+        technique='static analysis: literal-axis rule, flatten/restore typestate on term graphs, index-local loop rule, constructor-arity rule, einsum field-rank rule',
+        level='For every `...`-documented distribution / mixture function: literal axes count from the right, axis-less reductions only in listed scalar idioms; every escaping value of a '
+              'function that flattens leading axes passes a reshape derived from the original shape; the Bingham per-problem loop is index-local; numpy constructors get one shape argument; '
+              'stored fields get no more einsum core letters than documented. Numeric equality of slices is NOT decided.',
+        note='Trusted: field comments / docstring shapes; the fixed-layout (F, K, T) integration models are excluded by their own contract.',
+        design='DESIGN.md section 3 (C06)'),
+    'C09': dict(
+        technique='static analysis: sanitiser-dominance rules on term graphs (R-SAN)',
+        level='Each parameter stored in a fitted model is the value of its documented sanitiser with the documented bounds as operands (vMF clip and floored-norm mean, Watson saturating '
+              'spline, cACG max-normalisation + floor + finiteness assert + Hermitian scatter, Bingham bounded solver + floor + Hermitian scatter, uniform / L1-normalised weights, floored '
+              'Gaussian mass, Cholesky at construction). NaN-freeness on arbitrary degenerate data is NOT decided.',
+        note='Trusted: sanitiser-per-field table from the documentation.',
+        design='DESIGN.md section 3 (C09)'),
+    'C18': dict(
+        technique='static analysis: axis-parametricity rule, form rules on term graphs, integer typing of shape arithmetic, may-alias in-place analysis',
+        level='Every axis-consuming call in the 9 mask functions takes its axis from a parameter (literals only on the restored 2-D working array); binary / ratio / amplitude / phase-sensitive / '
+              'complex masks have their defining form with the sum over source_axis; eps defaults are positive; flatten dimensions are integers; quantile direction per sign; no caller mutation. '
+              'Threshold semantics on values and ties are NOT decided.',
+        note='Trusted: mask definitions in the statement; sibling lorenz_mask as reference idiom.',
+        design='DESIGN.md section 3 (C18)'),
+    'C19': dict(
+        technique='static analysis: term identity rules for the power decomposition, AST idioms for self exclusion, constant-domain specialisation for the return_dict protocol, literal-axis rule',
+        level='Both SXR functions compute _sxr(S, I+N), _sxr(S, I), _sxr(S, N) with identical S and the first denominator the sum of the others (for the pure ratio _sxr); own-source exclusion; '
+              'complete enumeration + arg-MAX output selection; return_dict True / prefix / False specialisations return dict / dict / tuple for both siblings; si_sdr reduces over -1 only with the '
+              'projection form; set_snr exponent. dB values and scaling laws as numbers are NOT decided.',
+        note='Trusted: metric definitions in the statement.',
+        design='DESIGN.md section 3 (C19)'),
 }
 
 ALL = sorted(META)
